@@ -48,3 +48,23 @@ fn c06_classify_corruption_errors() {
     kani::cover!(which == 0 && save, "deserialization error quarantined");
     std::mem::forget(e);
 }
+
+/// C06 classify (foreign errors): an error that is not a pearl `Error` at all (plain I/O error, ad-hoc anyhow error) never
+/// sends a blob to quarantine: init fails instead (a healthy blob behind a permission problem must not be moved away).
+#[kani::proof]
+#[kani::unwind(3)]
+#[kani::stub(std::fmt::format, crate::kani_env::stub_format)]
+#[kani::stub(std::backtrace::Backtrace::capture, crate::kani_env::stub_backtrace_capture)]
+fn c06_classify_foreign_errors() {
+    let which: bool = kani::any();
+    let e: anyhow::Error = if which {
+        anyhow::Error::msg("some failure")
+    } else {
+        anyhow::Error::from(std::io::Error::from(IOErrorKind::PermissionDenied))
+    };
+    let save = Storage::<ArrayKey<1>>::should_save_corrupted_blob(&e);
+    assert!(!save);
+    kani::cover!(which, "ad-hoc error");
+    kani::cover!(!which, "plain I/O error");
+    std::mem::forget(e);
+}
